@@ -14,6 +14,9 @@ import BB.Proofs.G3Awg
 import BB.Model.Codec
 import BB.Proofs.G3Check
 import BB.Proofs.G3Cells
+import BB.Properties.C10
+import BB.Proofs.G9Cells
+import BB.Proofs.G9Ex
 
 namespace BB.C14
 open BB BB.Sequence
@@ -1225,5 +1228,406 @@ def emptySeq : Sequence :=
     guard `xs ≠ []`; `awg_delivered_in_unit` is vacuous (not wrong) for such a waveform. -/
 example : (emptySeq.outputForAWGFile.toOption.map (fun d => (d.pkg.isSome, d.thenErr, d.obligations.length))) =
     some (true, none, 0) := by decide +kernel
+
+end BB.C14
+
+/-! ### capstone: the AWG5014 package is the forged sequence, rescaled (`outputForAWGFile` tied to `Sequence.forge`) -/
+namespace BB.C14
+open BB BB.Sequence
+
+/-- helper (C14 first clause): evaluating a waveform does not look at the rescaling tag -/
+theorem eval_resc (w : Wave) (r : Option (ℚ × ℚ)) : Wave.eval? { w with resc := r } = w.eval? := rfl
+
+/-- helper (C14 first clause): the delivered samples of an evaluable, rescaled waveform -/
+theorem deliveredSamples_resc (w : Wave) (a o : ℚ) (xs : List ℚ) (h : w.eval? = some xs) :
+    deliveredSamples { w with resc := some (a, o) } = some (xs.map (fun v => Gen.rescaler v a o)) := by
+  unfold deliveredSamples
+  simp only [eval_resc, h, Option.map_some]
+
+/-- **C14, first clause, end to end (`outputForAWGFile` vs. `Sequence.forge`)**: let the stored
+    elements list no channel id twice (`ElemsWF`; true of everything the public API builds, see
+    `awg_identical_to_forge`), let `outputForAWGFile` return (possibly with deferred range
+    obligations) a package `pkg`, and let `forge(apply_delays=True, apply_filters=True)` return
+    `out`.  Then `pkg.channels` is `Sequence.channels`, every column has one entry per forged
+    position, and for every channel index `i` and position index `p`:
+    `out[p]` is position `p + 1`, an element position with the single content entry 1; with `c` the
+    channel `Sequence.channels[i]` of that entry, `w` its (delayed) waveform with its filter
+    annotation (which is the call declared for that channel, `filterOf`) and `m1`, `m2` its marker
+    arrays, the package holds at `[i][p]` exactly `w` tagged with the rescaling
+    `(amplitude, offset)` of that channel and the *unmodified* `m1`, `m2`; and whenever `w` is
+    evaluable (`xs`), every voltage lies in `[offset − amplitude/2, offset + amplitude/2]`, the
+    delivered samples are `rescaler(v)`, which for a positive amplitude is `(v − offset)/(amplitude/2)`
+    and lies in `[-1, 1]`. -/
+theorem awg_identical_to_forge_wf (s : Sequence) (hwf : Sequence.ElemsWF s) (d : Deferred AWGPkg) (pkg : AWGPkg)
+    (h : s.outputForAWGFile = .ok d) (hp : d.pkg = some pkg)
+    (out : List (ℕ × ForgedPos)) (hF : s.forge true true false = .ok out) :
+    s.channels = .ok pkg.channels ∧ out.length = s.data.length ∧
+    pkg.wfms.length = pkg.channels.length ∧ pkg.m1s.length = pkg.channels.length ∧
+    pkg.m2s.length = pkg.channels.length ∧
+    (∀ col ∈ pkg.wfms, col.length = out.length) ∧ (∀ col ∈ pkg.m1s, col.length = out.length) ∧
+    (∀ col ∈ pkg.m2s, col.length = out.length) ∧
+    ∀ i (hi : i < pkg.channels.length) p (hpp : p < out.length), ∃ sq cont c w m1 m2 a o,
+      out[p] = (p + 1, { sequencing := sq, isSub := false, content := [(1, cont, none)] }) ∧
+      lookupCh cont pkg.channels[i] = .ok c ∧ chWave c = .ok w ∧ chMarker c 1 = .ok m1 ∧ chMarker c 2 = .ok m2 ∧
+      s.filterOf pkg.channels[i] = .ok w.filt ∧
+      s.specNum (keyOf pkg.channels[i] "amplitude") = some a ∧ s.specNum (keyOf pkg.channels[i] "offset") = some o ∧
+      (pkg.wfms[i]?).bind (·[p]?) = some { w with resc := some (a, o) } ∧
+      (pkg.m1s[i]?).bind (·[p]?) = some m1 ∧ (pkg.m2s[i]?).bind (·[p]?) = some m2 ∧
+      ∀ xs, w.eval? = some xs →
+        (∀ x ∈ xs, o - a / 2 ≤ x ∧ x ≤ o + a / 2) ∧
+        deliveredSamples { w with resc := some (a, o) } = some (xs.map (fun v => Gen.rescaler v a o)) ∧
+        (0 < a → xs.map (fun v => Gen.rescaler v a o) = xs.map (fun v => (v - o) / (a / 2)) ∧
+          ∀ y ∈ xs.map (fun v => (v - o) / (a / 2)), -1 ≤ y ∧ y ≤ 1) := by
+  obtain ⟨P, hP, hlen, hch, hwl, hm1l, hm2l, hcw, hc1, hc2, _⟩ := awg_shape s d pkg h hp
+  obtain ⟨P', hP', _, hcell, _⟩ := awg_content_channels s d pkg h hp
+  have hPP : P' = P := by
+    rw [hP] at hP'
+    exact (Except.ok.inj hP').symm
+  subst hPP
+  obtain ⟨hPF, hagree⟩ := C10.output_path_equals_forge s out P' hF hP (fun p e hg => hwf.get p e hg)
+  refine ⟨hch, by omega, hwl, hm1l, hm2l, fun col hc => by rw [← hPF]; exact hcw col hc,
+    fun col hc => by rw [← hPF]; exact hc1 col hc, fun col hc => by rw [← hPF]; exact hc2 col hc, ?_⟩
+  intro i hi p hpp
+  have hpP : p < P'.length := by omega
+  obtain ⟨sq, _, hout⟩ := hagree p hpp hpP
+  obtain ⟨ob, w', c, m1, m2, hck, hw', hc, hmk1, hmk2, hp1, hp2⟩ := hcell i hi p hpP
+  obtain ⟨a, o, c', w0, ha, ho, hc', hw0, hweq, hev, _⟩ := awgCheckWave_ok s (p + 1) P'[p] pkg.channels[i] ob w' hck
+  rw [hc] at hc'
+  cases hc'
+  have hfilt : s.filterOf pkg.channels[i] = .ok w0.filt := by
+    have := Sequence.prepare_filters s P' hP p hpP (pkg.channels[i], c) (G9.lookup_mem _ _ _ hc)
+    rw [G9.chWave_filt c w0 hw0]; exact this
+  refine ⟨sq, P'[p], c, w0, m1, m2, a, o, hout, hc, hw0, hmk1, hmk2, hfilt, ha, ho, by rw [hw', hweq], hp1, hp2, ?_⟩
+  intro xs hxs
+  obtain ⟨hrc, _⟩ := hev xs hxs
+  have hrange : ∀ x ∈ xs, o - a / 2 ≤ x ∧ x ≤ o + a / 2 := by
+    intro x hx
+    have hne : xs ≠ [] := by intro he; rw [he] at hx; simp at hx
+    exact ((range_check_iff xs a o hne).1.mp hrc) x hx
+  refine ⟨hrange, deliveredSamples_resc w0 a o xs hxs, fun hapos => ?_⟩
+  have hmap : xs.map (fun v => Gen.rescaler v a o) = xs.map (fun v => (v - o) / (a / 2)) := by
+    apply List.map_congr_left
+    intro x _
+    exact rescale_spec x a o (ne_of_gt hapos)
+  refine ⟨hmap, ?_⟩
+  rw [← hmap]
+  intro y hy
+  obtain ⟨x, hx, rfl⟩ := List.mem_map.mp hy
+  exact rescale_range x a o hapos (hrange x hx).1 (hrange x hx).2
+
+/-- **C14, first clause, end to end, for every sequence the public API builds**
+    (`Sequence.ApiBuilt`): `awg_identical_to_forge_wf` without a hypothesis on the channel stores —
+    the delivered cell `[i][p]` is the forged (delayed, compensated) waveform of channel
+    `Sequence.channels[i]` at position `p + 1` tagged with that channel's rescaling, with the
+    unmodified markers; evaluable waveforms are delivered as `(v − offset)/(amplitude/2)`, in `[-1, 1]` -/
+theorem awg_identical_to_forge (s : Sequence) (hs : Sequence.ApiBuilt s) (d : Deferred AWGPkg) (pkg : AWGPkg)
+    (h : s.outputForAWGFile = .ok d) (hp : d.pkg = some pkg)
+    (out : List (ℕ × ForgedPos)) (hF : s.forge true true false = .ok out) :
+    s.channels = .ok pkg.channels ∧ out.length = s.data.length ∧
+    pkg.wfms.length = pkg.channels.length ∧ pkg.m1s.length = pkg.channels.length ∧
+    pkg.m2s.length = pkg.channels.length ∧
+    (∀ col ∈ pkg.wfms, col.length = out.length) ∧ (∀ col ∈ pkg.m1s, col.length = out.length) ∧
+    (∀ col ∈ pkg.m2s, col.length = out.length) ∧
+    ∀ i (hi : i < pkg.channels.length) p (hpp : p < out.length), ∃ sq cont c w m1 m2 a o,
+      out[p] = (p + 1, { sequencing := sq, isSub := false, content := [(1, cont, none)] }) ∧
+      lookupCh cont pkg.channels[i] = .ok c ∧ chWave c = .ok w ∧ chMarker c 1 = .ok m1 ∧ chMarker c 2 = .ok m2 ∧
+      s.filterOf pkg.channels[i] = .ok w.filt ∧
+      s.specNum (keyOf pkg.channels[i] "amplitude") = some a ∧ s.specNum (keyOf pkg.channels[i] "offset") = some o ∧
+      (pkg.wfms[i]?).bind (·[p]?) = some { w with resc := some (a, o) } ∧
+      (pkg.m1s[i]?).bind (·[p]?) = some m1 ∧ (pkg.m2s[i]?).bind (·[p]?) = some m2 ∧
+      ∀ xs, w.eval? = some xs →
+        (∀ x ∈ xs, o - a / 2 ≤ x ∧ x ≤ o + a / 2) ∧
+        deliveredSamples { w with resc := some (a, o) } = some (xs.map (fun v => Gen.rescaler v a o)) ∧
+        (0 < a → xs.map (fun v => Gen.rescaler v a o) = xs.map (fun v => (v - o) / (a / 2)) ∧
+          ∀ y ∈ xs.map (fun v => (v - o) / (a / 2)), -1 ≤ y ∧ y ≤ 1) :=
+  awg_identical_to_forge_wf s hs.elemsWF d pkg h hp out hF
+
+/-- helper (C14 capstones): the stored elements of the raw-array example `G3.Ex.seq` list no channel id twice -/
+theorem ex_seq_elemsWF : Sequence.ElemsWF G3.Ex.seq := by
+  intro x hx e he
+  simp only [G3.Ex.seq, List.mem_cons, List.not_mem_nil, or_false] at hx
+  rcases hx with rfl | rfl <;> cases he <;> (unfold Dict.WF; decide)
+
+/-- non-vacuity of `awg_identical_to_forge_wf`: the two-position raw-array example `G3.Ex.seq`
+    (non-zero offset on channel 1) meets every hypothesis -/
+example : Sequence.ElemsWF G3.Ex.seq ∧ (∃ d pkg, G3.Ex.seq.outputForAWGFile = .ok d ∧ d.pkg = some pkg) ∧
+    (∃ out, G3.Ex.seq.forge true true false = .ok out) := by
+  refine ⟨ex_seq_elemsWF, ?_, G3.isSome_toOption _ (by decide +kernel)⟩
+  obtain ⟨d, pkg, h1, h2, _⟩ := G3.Ex.seq_awg_ok
+  exact ⟨d, pkg, h1, h2⟩
+
+/-- non-vacuity of `awg_identical_to_forge`: the example `G9Ex.awgSeq` — built through the public
+    API, blueprint channel 1 delayed by two samples, raw channel "A", non-zero offset — meets
+    every hypothesis -/
+example : Sequence.ApiBuilt G9Ex.awgSeq ∧ (∃ d pkg, G9Ex.awgSeq.outputForAWGFile = .ok d ∧ d.pkg = some pkg) ∧
+    (∃ out, G9Ex.awgSeq.forge true true false = .ok out) :=
+  ⟨G9Ex.awgSeq_built, G9Ex.awgSeq_awg_ok, G9Ex.awgSeq_forge_ok⟩
+
+/-- ... and what the theorem then says on it, computed: at position 1, channel 1 (amplitude 2,
+    offset 1/2) is delivered as two zeros and the ramp 0 … 9/10 V, each mapped to `v − 1/2` -/
+example : (G9Ex.awgSeq.outputForAWGFile.toOption.bind (·.pkg)).bind
+      (fun pkg => ((pkg.wfms[0]?).bind (·[0]?)).bind deliveredSamples) =
+    some [-1/2, -1/2, -1/2, -2/5, -3/10, -1/5, -1/10, 0, 1/10, 1/5, 3/10, 2/5] := by
+  decide +kernel
+
+/-! ### capstone: whole-sample delays, seen in the AWG5014 package -/
+
+/-- **C14 first clause + C10, a delayed blueprint channel in the AWG5014 package**: under the
+    hypotheses of `awg_identical_to_forge_wf`, let the element `e` at position `p + 1` hold on its
+    `k`-th channel — which is `Sequence.channels[i]` — a blueprint `b` whose undelayed waveform
+    evaluates to `ys`, and let the delay of that channel and the largest delay of the element's
+    channels be the whole sample counts `D` and `M` (each padding absent or at least two samples).
+    Then the delay is the one declared for that channel id, and the delivered waveform
+    `pkg.wfms[i][p]` carries the channel's rescaling and declared filter call and consists of
+    blocks that evaluate to `D` zeros, `ys`, `M − D` zeros; without a compensation (and with a
+    positive amplitude) the delivered samples are exactly
+    `(zeros D ++ ys ++ zeros (M − D))` mapped through `(v − offset)/(amplitude/2)`. -/
+theorem awg_delayed_bp_channel_wf (s : Sequence) (hwf : Sequence.ElemsWF s) (d : Deferred AWGPkg) (pkg : AWGPkg)
+    (h : s.outputForAWGFile = .ok d) (hp : d.pkg = some pkg)
+    (out : List (ℕ × ForgedPos)) (hF : s.forge true true false = .ok out)
+    (i : ℕ) (hi : i < pkg.channels.length) (p : ℕ) (hpp : p < s.data.length) (e : Element)
+    (he : Dict.get? s.data ((p + 1 : ℕ) : ℤ) = some (.el e)) (ds : List ℚ) (hds : e.channels.mapM s.delayOf = .ok ds)
+    (sr : ℚ) (hsr : e.getSR = .ok (.num sr)) (hsr0 : 0 < sr)
+    (k : ℕ) (hk : k < e.chans.length) (hkd : k < ds.length) (hki : (e.chans[k]).1 = pkg.channels[i])
+    (b : BP) (hb : (e.chans[k]).2.data = .bp b)
+    (f : Forged) (hf : forgeBP b = .ok f) (ys : List ℚ) (hev : Wave.eval? { blocks := f.blocks } = some ys)
+    (D M : ℕ) (hD : ds[k] * sr = D) (hM : maxR ds * sr = M)
+    (hfront : D = 0 ∨ 2 ≤ D) (hback : M - D = 0 ∨ 2 ≤ M - D) :
+    s.delayOf pkg.channels[i] = .ok ds[k] ∧ D ≤ M ∧
+    ∃ w a o, (pkg.wfms[i]?).bind (·[p]?) = some w ∧
+      s.specNum (keyOf pkg.channels[i] "amplitude") = some a ∧ s.specNum (keyOf pkg.channels[i] "offset") = some o ∧
+      w.resc = some (a, o) ∧ s.filterOf pkg.channels[i] = .ok w.filt ∧
+      Wave.eval? { blocks := w.blocks } = some (List.replicate D 0 ++ ys ++ List.replicate (M - D) 0) ∧
+      (w.filt = none → 0 < a → deliveredSamples w =
+        some ((List.replicate D 0 ++ ys ++ List.replicate (M - D) 0).map (fun v => (v - o) / (a / 2)))) := by
+  obtain ⟨_, hlen, _, _, _, _, _, _, hcell⟩ := awg_identical_to_forge_wf s hwf d pkg h hp out hF
+  have hpo : p < out.length := by omega
+  obtain ⟨sq, cont, c, w, m1, m2, a, o, hout, hc, hw, _, _, hfilt, ha, ho, hcw, _, _, hxs⟩ := hcell i hi p hpo
+  rw [← hki] at hc
+  obtain ⟨hdel, hle, f', hco, _, hE⟩ := G9.cell_delayed_bp s true false out hF p hpo e he (hwf.get _ e he) ds hds sr hsr hsr0
+    k hk hkd b hb f hf ys hev D M hD hM hfront hback sq cont hout c hc
+  have hwb : w = { blocks := f'.blocks, filt := c.filt } := by
+    simp only [chWave, hco, Except.ok.injEq] at hw
+    exact hw.symm
+  rw [hki] at hdel
+  refine ⟨hdel, hle, { w with resc := some (a, o) }, a, o, hcw, ha, ho, rfl, hfilt, ?_, ?_⟩
+  · rw [hwb]; exact hE
+  · intro hnf hapos
+    have hnf' : c.filt = none := by rw [hwb] at hnf; exact hnf
+    have hev' : w.eval? = some (List.replicate D 0 ++ ys ++ List.replicate (M - D) 0) := by
+      rw [hwb, hnf']; exact hE
+    obtain ⟨_, hds', hmap⟩ := hxs _ hev'
+    rw [hds', (hmap hapos).1]
+
+/-- `awg_delayed_bp_channel_wf` for every sequence the public API builds -/
+theorem awg_delayed_bp_channel (s : Sequence) (hs : Sequence.ApiBuilt s) (d : Deferred AWGPkg) (pkg : AWGPkg)
+    (h : s.outputForAWGFile = .ok d) (hp : d.pkg = some pkg)
+    (out : List (ℕ × ForgedPos)) (hF : s.forge true true false = .ok out)
+    (i : ℕ) (hi : i < pkg.channels.length) (p : ℕ) (hpp : p < s.data.length) (e : Element)
+    (he : Dict.get? s.data ((p + 1 : ℕ) : ℤ) = some (.el e)) (ds : List ℚ) (hds : e.channels.mapM s.delayOf = .ok ds)
+    (sr : ℚ) (hsr : e.getSR = .ok (.num sr)) (hsr0 : 0 < sr)
+    (k : ℕ) (hk : k < e.chans.length) (hkd : k < ds.length) (hki : (e.chans[k]).1 = pkg.channels[i])
+    (b : BP) (hb : (e.chans[k]).2.data = .bp b)
+    (f : Forged) (hf : forgeBP b = .ok f) (ys : List ℚ) (hev : Wave.eval? { blocks := f.blocks } = some ys)
+    (D M : ℕ) (hD : ds[k] * sr = D) (hM : maxR ds * sr = M)
+    (hfront : D = 0 ∨ 2 ≤ D) (hback : M - D = 0 ∨ 2 ≤ M - D) :
+    s.delayOf pkg.channels[i] = .ok ds[k] ∧ D ≤ M ∧
+    ∃ w a o, (pkg.wfms[i]?).bind (·[p]?) = some w ∧
+      s.specNum (keyOf pkg.channels[i] "amplitude") = some a ∧ s.specNum (keyOf pkg.channels[i] "offset") = some o ∧
+      w.resc = some (a, o) ∧ s.filterOf pkg.channels[i] = .ok w.filt ∧
+      Wave.eval? { blocks := w.blocks } = some (List.replicate D 0 ++ ys ++ List.replicate (M - D) 0) ∧
+      (w.filt = none → 0 < a → deliveredSamples w =
+        some ((List.replicate D 0 ++ ys ++ List.replicate (M - D) 0).map (fun v => (v - o) / (a / 2)))) :=
+  awg_delayed_bp_channel_wf s hs.elemsWF d pkg h hp out hF i hi p hpp e he ds hds sr hsr hsr0 k hk hkd hki b hb f hf ys hev
+    D M hD hM hfront hback
+
+/-- **... and a delayed raw-array channel in the AWG5014 package**: the delivered waveform
+    `pkg.wfms[i][p]` is the single raw block `padArr D (M − D) wfm` — the stored 'wfm' array with `D`
+    zeros in front and `M − D` behind — tagged with the channel's rescaling and declared filter
+    call, and the delivered marker arrays are the stored 'm1' / 'm2' arrays padded the same way;
+    without a compensation (and with a positive amplitude) the delivered samples are the padded
+    array mapped through `(v − offset)/(amplitude/2)`. -/
+theorem awg_delayed_raw_channel_wf (s : Sequence) (hwf : Sequence.ElemsWF s) (d : Deferred AWGPkg) (pkg : AWGPkg)
+    (h : s.outputForAWGFile = .ok d) (hp : d.pkg = some pkg)
+    (out : List (ℕ × ForgedPos)) (hF : s.forge true true false = .ok out)
+    (i : ℕ) (hi : i < pkg.channels.length) (p : ℕ) (hpp : p < s.data.length) (e : Element)
+    (he : Dict.get? s.data ((p + 1 : ℕ) : ℤ) = some (.el e)) (ds : List ℚ) (hds : e.channels.mapM s.delayOf = .ok ds)
+    (sr : ℚ) (hsr : e.getSR = .ok (.num sr)) (hsr0 : 0 < sr)
+    (k : ℕ) (hk : k < e.chans.length) (hkd : k < ds.length) (hki : (e.chans[k]).1 = pkg.channels[i])
+    (arrs : Dict String (List ℚ)) (sv : Val) (ha : (e.chans[k]).2.data = .arr arrs sv)
+    (D M : ℕ) (hD : ds[k] * sr = D) (hM : maxR ds * sr = M) :
+    s.delayOf pkg.channels[i] = .ok ds[k] ∧
+    ∃ w a o wfm r1 r2, (pkg.wfms[i]?).bind (·[p]?) = some w ∧
+      s.specNum (keyOf pkg.channels[i] "amplitude") = some a ∧ s.specNum (keyOf pkg.channels[i] "offset") = some o ∧
+      w.resc = some (a, o) ∧ s.filterOf pkg.channels[i] = .ok w.filt ∧
+      Dict.get? arrs "wfm" = some wfm ∧ Dict.get? arrs "m1" = some r1 ∧ Dict.get? arrs "m2" = some r2 ∧
+      w.blocks = [.raw (Element.padArr D (M - D) wfm)] ∧
+      (pkg.m1s[i]?).bind (·[p]?) = some (Element.padArr D (M - D) r1) ∧
+      (pkg.m2s[i]?).bind (·[p]?) = some (Element.padArr D (M - D) r2) ∧
+      (w.filt = none → 0 < a → deliveredSamples w =
+        some ((Element.padArr D (M - D) wfm).map (fun v => (v - o) / (a / 2)))) := by
+  obtain ⟨_, hlen, _, _, _, _, _, _, hcell⟩ := awg_identical_to_forge_wf s hwf d pkg h hp out hF
+  have hpo : p < out.length := by omega
+  obtain ⟨sq, cont, c, w, m1, m2, a, o, hout, hc, hw, hmk1, hmk2, hfilt, ha', ho, hcw, hp1, hp2, hxs⟩ := hcell i hi p hpo
+  rw [← hki] at hc
+  obtain ⟨hdel, a', tm, hco, hget⟩ := G9.cell_delayed_raw s true false out hF p hpo e he (hwf.get _ e he) ds hds sr hsr hsr0
+    k hk hkd arrs sv ha D M hD hM sq cont hout c hc
+  rw [hki] at hdel
+  -- the three arrays the output method reads
+  have key : ∀ name xs, Dict.get? a' name = some xs → ∃ r, Dict.get? arrs name = some r ∧ xs = Element.padArr D (M - D) r := by
+    intro name xs hx
+    rw [hget name] at hx
+    cases hr : Dict.get? arrs name with
+    | none => rw [hr] at hx; cases hx
+    | some r =>
+      rw [hr] at hx
+      simp only [Option.map_some, Option.some.injEq] at hx
+      exact ⟨r, rfl, hx.symm⟩
+  simp only [chWave, hco] at hw
+  simp only [chMarker, hco, if_true] at hmk1
+  simp only [chMarker, hco] at hmk2
+  cases hgw : Dict.get? a' "wfm" with
+  | none => rw [hgw] at hw; cases hw
+  | some xs =>
+    rw [hgw] at hw
+    simp only [Except.ok.injEq] at hw
+    cases hg1 : Dict.get? a' "m1" with
+    | none => rw [hg1] at hmk1; cases hmk1
+    | some x1 =>
+      rw [hg1] at hmk1
+      simp only [Except.ok.injEq] at hmk1
+      have hne : (2 : ℕ) ≠ 1 := by decide
+      simp only [hne, if_false] at hmk2
+      cases hg2 : Dict.get? a' "m2" with
+      | none => rw [hg2] at hmk2; cases hmk2
+      | some x2 =>
+        rw [hg2] at hmk2
+        simp only [Except.ok.injEq] at hmk2
+        obtain ⟨wfm, hwfm, rfl⟩ := key "wfm" xs hgw
+        obtain ⟨r1, hr1, rfl⟩ := key "m1" x1 hg1
+        obtain ⟨r2, hr2, rfl⟩ := key "m2" x2 hg2
+        subst hmk1 hmk2
+        refine ⟨hdel, { w with resc := some (a, o) }, a, o, wfm, r1, r2, hcw, ha', ho, rfl, hfilt, hwfm, hr1, hr2,
+          by rw [← hw], hp1, hp2, ?_⟩
+        intro hnf hapos
+        have hev' : w.eval? = some (Element.padArr D (M - D) wfm) := by
+          have hnf' : c.filt = none := by rw [← hw] at hnf; exact hnf
+          rw [← hw, hnf']
+          simp [Wave.eval?, Blk.eval?]
+        obtain ⟨_, hds', hmap⟩ := hxs _ hev'
+        rw [hds', (hmap hapos).1]
+
+/-- `awg_delayed_raw_channel_wf` for every sequence the public API builds -/
+theorem awg_delayed_raw_channel (s : Sequence) (hs : Sequence.ApiBuilt s) (d : Deferred AWGPkg) (pkg : AWGPkg)
+    (h : s.outputForAWGFile = .ok d) (hp : d.pkg = some pkg)
+    (out : List (ℕ × ForgedPos)) (hF : s.forge true true false = .ok out)
+    (i : ℕ) (hi : i < pkg.channels.length) (p : ℕ) (hpp : p < s.data.length) (e : Element)
+    (he : Dict.get? s.data ((p + 1 : ℕ) : ℤ) = some (.el e)) (ds : List ℚ) (hds : e.channels.mapM s.delayOf = .ok ds)
+    (sr : ℚ) (hsr : e.getSR = .ok (.num sr)) (hsr0 : 0 < sr)
+    (k : ℕ) (hk : k < e.chans.length) (hkd : k < ds.length) (hki : (e.chans[k]).1 = pkg.channels[i])
+    (arrs : Dict String (List ℚ)) (sv : Val) (ha : (e.chans[k]).2.data = .arr arrs sv)
+    (D M : ℕ) (hD : ds[k] * sr = D) (hM : maxR ds * sr = M) :
+    s.delayOf pkg.channels[i] = .ok ds[k] ∧
+    ∃ w a o wfm r1 r2, (pkg.wfms[i]?).bind (·[p]?) = some w ∧
+      s.specNum (keyOf pkg.channels[i] "amplitude") = some a ∧ s.specNum (keyOf pkg.channels[i] "offset") = some o ∧
+      w.resc = some (a, o) ∧ s.filterOf pkg.channels[i] = .ok w.filt ∧
+      Dict.get? arrs "wfm" = some wfm ∧ Dict.get? arrs "m1" = some r1 ∧ Dict.get? arrs "m2" = some r2 ∧
+      w.blocks = [.raw (Element.padArr D (M - D) wfm)] ∧
+      (pkg.m1s[i]?).bind (·[p]?) = some (Element.padArr D (M - D) r1) ∧
+      (pkg.m2s[i]?).bind (·[p]?) = some (Element.padArr D (M - D) r2) ∧
+      (w.filt = none → 0 < a → deliveredSamples w =
+        some ((Element.padArr D (M - D) wfm).map (fun v => (v - o) / (a / 2)))) :=
+  awg_delayed_raw_channel_wf s hs.elemsWF d pkg h hp out hF i hi p hpp e he ds hds sr hsr hsr0 k hk hkd hki arrs sv ha D M hD hM
+
+/-- helper (C14 capstones, non-vacuity): the package channels of the example are `[1, "A"]` -/
+theorem ex_awgSeq_channels : G9Ex.awgSeq.channels = .ok [.int 1, .str "A"] :=
+  G3.toOption_eq_some _ _ (by decide +kernel)
+
+/-- non-vacuity of `awg_delayed_bp_channel` / `awg_delayed_raw_channel` on `G9Ex.awgSeq` (besides
+    `ApiBuilt`, a delivered package and a successful `forge`, shown above): position 1 holds the
+    example element; its channel 0 is `Sequence.channels[0]` and holds the ramp blueprint, whose
+    undelayed waveform evaluates; its channel 1 is `Sequence.channels[1]` and holds raw arrays with
+    'wfm', 'm1', 'm2'; the delays are `[1/5, 0]` s at 10 Sa/s: `D = 2, M = 2` for channel 1 and
+    `D = 0, M = 2` for channel "A" -/
+example : Dict.get? G9Ex.awgSeq.data ((0 + 1 : ℕ) : ℤ) = some (.el G9Ex.awgStored) ∧
+    G9Ex.awgStored.channels.mapM G9Ex.awgSeq.delayOf = .ok [1/5, 0] ∧
+    G9Ex.awgStored.getSR = .ok (.num 10) ∧
+    G9Ex.awgStored.channels = [.int 1, .str "A"] ∧
+    (G9Ex.awgStored.chans[0]'(by decide +kernel)).2.data = .bp G4Ex.exBP ∧
+    (G9Ex.awgStored.chans[1]'(by decide +kernel)).2.data =
+      .arr [("m1", List.replicate 10 0), ("m2", List.replicate 10 1), ("wfm", List.replicate 10 (1/4))] (.num 10) ∧
+    (forgeBP G4Ex.exBP).toOption.bind (fun f => Wave.eval? { blocks := f.blocks }) =
+      some [0, 1/10, 2/10, 3/10, 4/10, 5/10, 6/10, 7/10, 8/10, 9/10] ∧
+    ((1 : ℚ) / 5) * 10 = (2 : ℕ) ∧ maxR [1/5, 0] * 10 = (2 : ℕ) ∧ (0 : ℚ) * 10 = (0 : ℕ) := by
+  refine ⟨G9Ex.awgSeq_pos1, by decide +kernel, by decide +kernel, by decide +kernel, by decide +kernel,
+    by decide +kernel, by decide +kernel, by norm_num, by decide +kernel, by norm_num⟩
+
+/-- ... and the outcome, computed: channel "A" (amplitude 1, offset 0; 10 samples at 1/4 V, not
+    delayed while channel 1 is delayed by 2 samples) is delivered as `2 · (1/4 ×10 ++ 0 ×2)`, its
+    marker 2 as the stored ones followed by two zeros -/
+example : (G9Ex.awgSeq.outputForAWGFile.toOption.bind (·.pkg)).map
+      (fun pkg => (((pkg.wfms[1]?).bind (·[0]?)).bind deliveredSamples, (pkg.m2s[1]?).bind (·[0]?))) =
+    some (some [1/2, 1/2, 1/2, 1/2, 1/2, 1/2, 1/2, 1/2, 1/2, 1/2, 0, 0], some [1, 1, 1, 1, 1, 1, 1, 1, 1, 1, 0, 0]) := by
+  decide +kernel
+
+end BB.C14
+
+namespace BB.C14
+open BB BB.Sequence
+
+/-- `awg_delayed_bp_channel` applied to `G9Ex.awgSeq`: channel 1 (amplitude 2, offset 1/2, delayed by
+    2 of 2 samples, no compensation) is delivered at position 1 as two zeros followed by the ramp,
+    every voltage mapped through `(v − 1/2)/(2/2)` -/
+example : ∃ d pkg w, G9Ex.awgSeq.outputForAWGFile = .ok d ∧ d.pkg = some pkg ∧ (pkg.wfms[0]?).bind (·[0]?) = some w ∧
+    deliveredSamples w = some ((List.replicate 2 (0 : ℚ) ++ [0, 1/10, 2/10, 3/10, 4/10, 5/10, 6/10, 7/10, 8/10, 9/10] ++
+      List.replicate (2 - 2) 0).map (fun v : ℚ => (v - 1/2) / (2 / 2))) := by
+  obtain ⟨d, pkg, h, hp⟩ := G9Ex.awgSeq_awg_ok
+  obtain ⟨out, hF⟩ := G9Ex.awgSeq_forge_ok
+  have hch : pkg.channels = [.int 1, .str "A"] := by
+    have := (awg_identical_to_forge G9Ex.awgSeq G9Ex.awgSeq_built d pkg h hp out hF).1
+    rw [ex_awgSeq_channels] at this
+    exact (Except.ok.inj this).symm
+  have hi : 0 < pkg.channels.length := by rw [hch]; decide
+  have h0 : pkg.channels[0] = .int 1 := by simp only [hch]; rfl
+  obtain ⟨f, hf⟩ := G3.isSome_toOption (forgeBP G4Ex.exBP) (by decide +kernel)
+  have hev : Wave.eval? { blocks := f.blocks } = some [0, 1/10, 2/10, 3/10, 4/10, 5/10, 6/10, 7/10, 8/10, 9/10] := by
+    have : (forgeBP G4Ex.exBP).toOption.bind (fun f => Wave.eval? { blocks := f.blocks }) =
+        some [0, 1/10, 2/10, 3/10, 4/10, 5/10, 6/10, 7/10, 8/10, 9/10] := by decide +kernel
+    rw [hf] at this
+    exact this
+  obtain ⟨_, _, w, a, o, hw, ha, ho, _, hfl, _, hds⟩ :=
+    awg_delayed_bp_channel G9Ex.awgSeq G9Ex.awgSeq_built d pkg h hp out hF 0 hi 0 (by decide +kernel)
+      G9Ex.awgStored G9Ex.awgSeq_pos1 [1/5, 0] (by decide +kernel) 10 (by decide +kernel) (by norm_num)
+      0 (by decide +kernel) (by decide) (by rw [h0]; decide +kernel) G4Ex.exBP (by decide +kernel) f hf _ hev 2 2
+      (by norm_num) (by decide +kernel) (.inr (le_refl 2)) (.inl rfl)
+  rw [h0] at ha ho hfl
+  have ha' : a = 2 := by
+    have : G9Ex.awgSeq.specNum (keyOf (.int 1) "amplitude") = some 2 := by decide +kernel
+    rw [this] at ha; exact (Option.some.inj ha).symm
+  have ho' : o = 1/2 := by
+    have : G9Ex.awgSeq.specNum (keyOf (.int 1) "offset") = some (1/2) := by decide +kernel
+    rw [this] at ho; exact (Option.some.inj ho).symm
+  have hnf : w.filt = none := by
+    have : G9Ex.awgSeq.filterOf (.int 1) = .ok none := by decide +kernel
+    rw [this] at hfl; exact (Except.ok.inj hfl).symm
+  subst ha' ho'
+  exact ⟨d, pkg, w, h, hp, hw, hds hnf (by norm_num)⟩
+
+/-! ### why the capstones assume that `forge` succeeds: negative delays -/
+
+/-- the example `G9Ex.awgSeq` with the delay of channel 1 set to −1/5 s -/
+def negDelaySeq : Sequence := SeqCore.setChannelDelay G9Ex.awgSeq (.int 1) (.num (-1/5))
+
+/-- **the hypothesis `forge … = .ok out` of the capstone theorems cannot be derived from the success
+    of the output method**: with a *negative* channel delay `forge` raises ValueError
+    (`_applyDelays`: "Negative delays not allowed"), whereas `_prepareForOutputting` has no such
+    check — `outputForAWGFile` delivers a package, in which channel 1 got `maxdelay − delay` = 2
+    samples of zeros appended (12 points) while channel "A" keeps 10 points.  Checked against
+    broadbean itself: `forge()` raises, `outputForAWGFile()` returns waveforms of 12 and 10 points.
+    (Negative delays are outside C10's quantifier; the two paths agree whenever both succeed.) -/
+example : (match negDelaySeq.forge true true false with | .error e => some e | .ok _ => none) = some Err.value ∧
+    (negDelaySeq.outputForAWGFile.toOption.bind (·.pkg)).map (fun pkg => pkg.wfms.map (·.map Wave.len)) =
+      some [[12, 12], [10, 10]] := by
+  constructor <;> decide +kernel
 
 end BB.C14
